@@ -72,7 +72,8 @@ ChainFor(size) == IF size >= 65000 THEN "dstx8000" ELSE IF size >= 9000 THEN "ds
                   ELSE IF size >= 1500 THEN "dstx180" ELSE "dstx20"
 DeepFrames ==
   UNION { { DeepFrame(x.st, x.unit, Reps(x, size), x.post, x.plen, 0) : x \in DeepShapes }
-          \cup { Frame(<<L("eth", "-"), L("ip6", ChainFor(size)), L("udp", "-")>>, 5, 0) }
+          \cup { Frame(<<L("eth", "-"), L("ip6", ChainFor(size)), L("udp", "-")>>, 5, 0),
+                 Frame(<<L("eth", "-"), L("ip6", "dstbig"), L("udp", "-")>>, 5, 0) }
           : size \in DeepSizes }
 
 ----------------------------------------------------------------------------
